@@ -16,7 +16,8 @@ RULE = ("fault enumeration of response frames that pass validation: every valid 
         "to every value 0..255; well-formed property answers with every id x every value byte 0..255 and every subset of <= 3 ids present; every response id 0..255 x bodies of length 0..30 (00 / FF / counting); group nibble 0..15; each bad "
         "frame as the only answer to refresh, apply, get_capabilities, toggle_display and start_self_clean, and mixed with a good "
         "state report in the same exchange (good+bad, bad+good, bad+good+bad); histories of two and three well-formed answers of one kind with "
-        "very different contents (valid, all zero, all FF, other valid) on one client. Oracle: nothing escapes the operation; in a mixed "
+        "very different contents (valid, all zero, all FF, other valid) on one client; every order of refresh / capability query / apply / display toggle "
+        "against awkward but well-formed units; 30 consecutive exchanges answered only with bad frames. Oracle: nothing escapes the operation; in a mixed "
         "exchange the good frame is applied and the device is online. non-trivial = every case")
 ASSUMPTIONS = ["all frames of a mixed exchange arrive before the library resumes (same virtual instant)"]
 DRIVERS = ["refresh", "apply", "get_capabilities", "toggle_display", "start_self_clean", "refresh-props", "refresh-then-ops", "get_capabilities-2nd"]
@@ -140,6 +141,9 @@ def shards(tier):
         out.append((g, "refresh-props", "bad+good"))
     for k in KINDS:
         out.append(("seq", k, "alone"))
+    out.append(("orders", "all", "alone"))
+    for g in ("trunc", "fields", "ids-a"):
+        out.append(("streak", g, "alone"))
     for g in ("trunc", "fields"):
         for mix in ("good+bad", "bad+good", "bad+good+bad"):
             for d in ("refresh", "apply", "refresh-props"):
@@ -353,8 +357,98 @@ def run_seq(st: Stats, kind: str):
         st.ev(("seq", kind, seq), "contained" if not prob else "escaped", True)
 
 
+def run_orders(st: Stats):
+    """Every order of the public operations on one client, against units whose answers are all well formed but awkward:
+    a non-preset fan speed with a preset-only capability report, a full-featured unit, a unit with an empty capability list."""
+    from itertools import permutations
+    units = {
+        "preset-only caps, fan 55": (dict(fan=55), [[cap_record(0x0210, 5), cap_record(0x0214, 1), cap_record(0x0212, 0), cap_record(0x0215, 0)]]),
+        "full caps, fan 60": (dict(fan=60), rich_device().cap_pages),
+        "empty caps, fan 1": (dict(fan=1), [[]]),
+        "no modes / no swing caps, mode 5": (dict(mode=5, swing=0xF, eco=True, turbo=True, freeze=True, humidity=90),
+                                             [[cap_record(0x0214, 9), cap_record(0x0215, 9), cap_record(0x0212, 0), cap_record(0x021A, 0), cap_record(0x0213, 0)]]),
+    }
+    ops = ["refresh", "get_capabilities", "apply", "toggle_display"]
+    for uname, (state, pages) in units.items():
+        for order in permutations(ops):
+            for repeat in (1, 2):
+                dev = rich_device()
+                dev.state.update(state)
+                dev.cap_pages = pages
+                rig = Rig(2, ac=dev)
+                ac = rig.client()
+
+                async def drive():
+                    for _ in range(repeat):
+                        for op in order:
+                            await getattr(ac, op)()
+                    return ac.online
+
+                try:
+                    out = rig.run(drive())
+                finally:
+                    rig.close()
+                case = {"label": f"orders {uname}: {'>'.join(order)} x{repeat}", "frame": b"", "driver": "orders", "mix": "alone"}
+                prob = None
+                if out[0] != "ok":
+                    prob = f"raised {type(out[1]).__name__}"
+                elif dev.rejected:
+                    prob = f"sent a command the unit rejects: {dev.rejected[0][1]}"
+                if prob:
+                    st.violation(f"operation order on a well-formed unit ({uname}): {prob.split(':')[0]}", case, "no operation raises", prob, str(out[1])[:200])
+                st.ev(("orders", uname, order, repeat), "contained" if not prob else "escaped", True)
+
+
+def run_streak(st: Stats, tier, group: str):
+    """Repetition bound: 30 consecutive exchanges on one client that are all answered with (different) bad frames."""
+    frames = [f for _, f in bad_frames(tier, group)]
+    for driver in ("refresh", "apply", "get_capabilities", "toggle_display"):
+        for start in range(0, min(len(frames), 3000), 997):
+            cur = {"i": start, "bad": True}
+
+            def script(req):
+                if not cur["bad"]:
+                    for p in req.responses:
+                        req.send(p)
+                    return
+                cur["i"] += 1
+                req.send(req.dev.wrap(req.conn, frames[cur["i"] % len(frames)]))
+
+            rig = Rig(2, ac=rich_device(), script=script)
+            ac = rig.client()
+
+            async def drive():
+                for _ in range(30):
+                    await getattr(ac, driver)()
+                cur["bad"] = False
+                await ac.refresh()
+                return ac.online
+
+            try:
+                out = rig.run(drive())
+            finally:
+                rig.close()
+            case = {"label": f"streak {group} from {start}", "frame": b"", "driver": "streak", "mix": "alone", "group": group}
+            prob = None
+            if out[0] != "ok":
+                prob = f"{driver} raised {type(out[1]).__name__}"
+            elif not out[1]:
+                prob = "device offline in the honest refresh after the streak"
+            if prob:
+                st.violation(f"30 consecutive bad answers ({group}): {prob}", case, "no operation raises", prob, str(out[1])[:200])
+            st.ev(("streak", group, driver, start), "contained" if not prob else "escaped", True)
+
+
 def run_shard(shard, tier) -> Stats:
     group, driver, mix = shard
+    if group == "orders":
+        st = Stats()
+        run_orders(st)
+        return st
+    if group == "streak":
+        st = Stats()
+        run_streak(st, tier, driver)
+        return st
     if group == "seq":
         st = Stats()
         run_seq(st, driver)
@@ -428,6 +522,14 @@ def run_shard(shard, tier) -> Stats:
 
 
 def replay(case):
+    if case.get("driver") == "orders":
+        st = Stats()
+        run_orders(st)
+        return sorted(st.viol_counts)
+    if case.get("driver") == "streak":
+        st = Stats()
+        run_streak(st, "quick", case["group"])
+        return sorted(st.viol_counts)
     if case.get("driver") == "seq":
         st = Stats()
         run_seq(st, case["kind"])
